@@ -18,9 +18,9 @@ theorem strip_strip (s : State κ ν) : strip (strip s) = strip s := rfl
 
 theorem step_strip (cfg : Cfg) (s : State κ ν) (l : Label κ ν) :
     (step cfg (strip s) l).map strip = (step cfg s l).map strip := by
-  obtain ⟨q, token, reset, stopped, stopClosed, pc, cpc, now, nextId, log, timer, readAt, armAt⟩ := s
-  have hs : strip (κ := κ) (ν := ν) ⟨q, token, reset, stopped, stopClosed, pc, cpc, now, nextId, log, timer, readAt, armAt⟩ =
-      ⟨q, token, reset, stopped, stopClosed, pc, cpc, now, nextId, [], timer, 0, 0⟩ := rfl
+  obtain ⟨q, token, reset, stopped, stopClosed, pc, cpc, now, nextId, log, timer, readAt, armAt, root⟩ := s
+  have hs : strip (κ := κ) (ν := ν) ⟨q, token, reset, stopped, stopClosed, pc, cpc, now, nextId, log, timer, readAt, armAt, root⟩ =
+      ⟨q, token, reset, stopped, stopClosed, pc, cpc, now, nextId, [], timer, 0, 0, root⟩ := rfl
   rw [hs]
   cases l <;> simp only [step] <;> (try (cases pc <;> simp only [])) <;>
     (repeat' split) <;> (try rfl) <;> (cases token <;> simp_all [process, strip]) <;> (try split) <;> simp_all
